@@ -75,6 +75,7 @@ func opSubject(op string) string {
 
 // caseT is one explored case (also the replay artefact).
 type caseT struct {
+	Start string   `json:"start,omitempty"` // "" = empty database | pre = subject A exists and has a service
 	Nuts  string   `json:"nuts"`           // scripted | real
 	Seq   []string `json:"seq"`            // operation sequence
 	At    int      `json:"at"`             // index of the operation that is cut
@@ -98,7 +99,8 @@ type network struct {
 var errPublish = errors.New("verif: environment refuses IsCommitted")
 
 type world struct {
-	t      *testing.T
+	t      testing.TB
+	commits []string // documents handed to successful method Commits during the running operation
 	kind   string
 	se     storage.Engine
 	db     *gorm.DB
@@ -139,6 +141,7 @@ func (m *method) Commit(ctx context.Context, change orm.DIDChangeLog) error {
 	} else if err := m.w.publish(change); err != nil {
 		return err
 	}
+	m.w.commits = append(m.w.commits, m.name+": "+docSummary(change))
 	// only stops are armed here (a publish that succeeded but reports an error is outside the statement)
 	_ = m.w.ext(m.name + ".Commit:done")
 	return nil
@@ -154,6 +157,20 @@ func (m *method) IsCommitted(ctx context.Context, change orm.DIDChangeLog) (bool
 		return false, errPublish
 	}
 	return m.w.net.published[change.DIDDocumentVersionID], nil
+}
+
+// docSummary is what a method manager is asked to publish, free of random identifiers.
+func docSummary(change orm.DIDChangeLog) string {
+	doc, err := change.DIDDocumentVersion.ToDIDDocument()
+	if err != nil {
+		return "unreadable: " + err.Error()
+	}
+	var svcs []string
+	for _, svc := range doc.Service {
+		svcs = append(svcs, fmt.Sprintf("%s|%v", svc.Type, svc.ServiceEndpoint))
+	}
+	sort.Strings(svcs)
+	return fmt.Sprintf("%s v%d vms=%d svc=%v", change.Type, change.DIDDocumentVersion.Version, len(doc.VerificationMethod), svcs)
 }
 
 func (w *world) ext(label string) error {
@@ -197,7 +214,7 @@ func (w *world) publish(change orm.DIDChangeLog) error {
 
 var rootDID = did.MustParseDID("did:web:example.com")
 
-func newWorld(t *testing.T, kind string) *world {
+func newWorld(t testing.TB, kind string) *world {
 	se := storage.NewTestStorageEngine(t)
 	if err := se.Start(); err != nil {
 		t.Fatal(err)
@@ -213,10 +230,22 @@ func newWorld(t *testing.T, kind string) *world {
 	}
 	w.ks = nutsCrypto.NewDatabaseCryptoInstance(db)
 	if kind == "real" {
-		w.store = didstore.TestStore(t, se)
+		w.store = didstore.TestStore(t.(*testing.T), se)
 	}
 	w.build()
 	return w
+}
+
+// preset brings the world into a non-initial start state (fault-free, not part of the sequence).
+func (w *world) preset(start string) {
+	if start != "pre" {
+		return
+	}
+	for _, op := range []string{opCreateA, opAddSvc} {
+		if err := w.apply(op, w.prepare(op)); err != nil {
+			w.t.Fatalf("harness: start state %s: %s: %v", start, op, err)
+		}
+	}
 }
 
 // build constructs the component under test (again after a stop: the restarted process).
@@ -416,6 +445,21 @@ func (w *world) observe() (absState, rawObs) {
 			} else if !errors.Is(err, resolver.ErrNotFound) {
 				s.Err += "Resolve:" + err.Error() + ";"
 			}
+			d.RelVersion, d.RelServices = -1, []string{}
+			if rel, err := didsubject.NewDIDDocumentManager(w.db).Latest(*parsed, nil); err == nil {
+				d.RelVersion, d.RelVMs = rel.Version, len(rel.VerificationMethods)
+				for _, svc := range rel.Services {
+					var parsedSvc did.Service
+					if err := json.Unmarshal(svc.Data, &parsedSvc); err != nil {
+						d.RelServices = append(d.RelServices, "unreadable")
+						continue
+					}
+					d.RelServices = append(d.RelServices, fmt.Sprintf("%s|%v", parsedSvc.Type, parsedSvc.ServiceEndpoint))
+				}
+				sort.Strings(d.RelServices)
+			} else if !errors.Is(err, gorm.ErrRecordNotFound) {
+				s.Err += "Latest:" + err.Error() + ";"
+			}
 			s.DIDs = append(s.DIDs, d)
 		}
 		sort.SliceStable(s.DIDs, func(i, j int) bool { return methodRank(s.DIDs[i].Method) < methodRank(s.DIDs[j].Method) })
@@ -439,6 +483,7 @@ func (w *world) observe() (absState, rawObs) {
 // ------------------------------------------------------------------ fault-free twin
 
 type twin struct {
+	Commits [][]string // per operation: what the method managers were asked to publish
 	Results []string
 	States  []absState // States[i] = before op i; States[len] = final
 	Steps   [][]fault.PoolStep
@@ -478,28 +523,37 @@ func successClause(before, after absState, subject, res string) (string, string)
 	return "", ""
 }
 
-func dryRun(t *testing.T, r *ev.Run, kind string, seq []string) *twin {
+func sortedCopy(xs []string) []string {
+	out := append([]string{}, xs...)
+	sort.Strings(out)
+	return out
+}
+
+func dryRun(t *testing.T, r *ev.Run, kind, start string, seq []string) *twin {
 	var tw *twin
 	t.Run(uniq("twin"), func(t *testing.T) {
 		w := newWorld(t, kind)
+		w.preset(start)
 		tw = &twin{}
 		st, raw := w.observe()
 		tw.States, tw.Raw = append(tw.States, st), append(tw.Raw, raw)
 		for i, op := range seq {
 			a := w.prepare(op)
 			w.pool.ResetSteps()
+			w.commits = nil
 			err := w.apply(op, a)
 			_ = w.pool.External("end")
+			tw.Commits = append(tw.Commits, sortedCopy(w.commits))
 			tw.Steps = append(tw.Steps, w.pool.Steps())
 			tw.Results = append(tw.Results, classify(err))
 			st, raw := w.observe()
 			if cl, what := successClause(tw.States[i], st, opSubject(op), tw.Results[i]); cl != "" {
 				r.Violation(fmt.Sprintf("C13|fault-free|%s|%s|none|%s-nuts", cl, opClass(op), kind), what,
-					caseT{Nuts: kind, Seq: seq[:i+1], At: i, Mode: "none"})
+					caseT{Start: start, Nuts: kind, Seq: seq[:i+1], At: i, Mode: "none"})
 			}
 			if cl, what := st.invariant(); cl != "" {
 				r.Violation(fmt.Sprintf("C13|fault-free|%s|%s|none|%s-nuts", cl, opClass(op), kind), what,
-					caseT{Nuts: kind, Seq: seq[:i+1], At: i, Mode: "none"})
+					caseT{Start: start, Nuts: kind, Seq: seq[:i+1], At: i, Mode: "none"})
 			}
 			tw.States, tw.Raw = append(tw.States, st), append(tw.Raw, raw)
 		}
@@ -588,6 +642,7 @@ func runCase(t *testing.T, r *ev.Run, c caseT, tw *twin) caseResult {
 	var cr caseResult
 	t.Run(uniq("case"), func(t *testing.T) {
 		w := newWorld(t, c.Nuts)
+		w.preset(c.Start)
 		op := c.Seq[c.At]
 		subject := opSubject(op)
 		reported := false
@@ -601,7 +656,7 @@ func runCase(t *testing.T, r *ev.Run, c caseT, tw *twin) caseResult {
 				scenario = "race"
 			}
 			r.Violation(fmt.Sprintf("C13|%s|%s|%s|%s|%s-nuts", scenario, clause, opClass(op), c.Mode, c.Nuts),
-				fmt.Sprintf("%s [sequence %v, operation %d (%s) cut by %s at step %d (%s), sweep variant %s]", what, c.Seq, c.At, op, c.Mode, c.Step, cr.cutClass+c.Race, c.Sweep), c)
+				fmt.Sprintf("%s [start %q, sequence %v, operation %d (%s) cut by %s at step %d (%s), sweep variant %s]", what, c.Start, c.Seq, c.At, op, c.Mode, c.Step, cr.cutClass+c.Race, c.Sweep), c)
 		}
 		diverged := func(what string) {
 			r.AssumptionCheck("twin-determinism", false, fmt.Sprintf("%s in case %s", what, ev.Key(c)))
@@ -749,9 +804,12 @@ func runCase(t *testing.T, r *ev.Run, c caseT, tw *twin) caseResult {
 			}
 			// (c) the repeated attempt
 			if !cr.published && res != "ok" {
+				w.commits = nil
 				res2 := classify(w.apply(op, args))
 				post, postRaw := w.observe()
 				switch {
+				case res2 == "ok" && natural == "ok" && strings.Join(sortedCopy(w.commits), ";") != strings.Join(tw.Commits[c.At], ";"):
+					violation("retry-publishes-other-documents", fmt.Sprintf("the repeated attempt hands %v to the method managers, the fault-free twin %v", sortedCopy(w.commits), tw.Commits[c.At]))
 				case natural == "ok" && res2 != "ok":
 					violation("retry-refused", fmt.Sprintf("the repeated attempt answers %q although the same operation succeeds on the fault-free twin", res2))
 				case res2 != natural:
@@ -777,8 +835,14 @@ func runCase(t *testing.T, r *ev.Run, c caseT, tw *twin) caseResult {
 		}
 		// (d) continue the sequence
 		for j := c.At + 1; j < len(c.Seq); j++ {
+			w.commits = nil
 			res := classify(w.apply(c.Seq[j], w.prepare(c.Seq[j])))
 			st, _ := w.observe()
+			if res == tw.Results[j] && strings.Join(sortedCopy(w.commits), ";") != strings.Join(tw.Commits[j], ";") {
+				violation("continuation-publishes-other-documents", fmt.Sprintf("operation %d (%s) after the cut hands %v to the method managers, the fault-free twin %v",
+					j, c.Seq[j], sortedCopy(w.commits), tw.Commits[j]))
+				break
+			}
 			if res != tw.Results[j] || st.key() != tw.States[j+1].key() {
 				violation("continuation-differs", fmt.Sprintf("operation %d (%s) after the cut answers %s and leaves %s; fault-free twin: %s, %s",
 					j, c.Seq[j], res, st.key(), tw.Results[j], tw.States[j+1].key()))
@@ -844,7 +908,7 @@ func TestVerifC13(t *testing.T) {
 	defer r.Finish()
 	// the node gives up on a bbolt lock after one second of REAL time; on a loaded machine that is a harness hazard
 	storage.DefaultBBoltOptions = append(storage.DefaultBBoltOptions, stoabs.WithLockAcquireTimeout(2*time.Minute))
-	r.Rule("operation sequences over {create A, create B, add/update/delete service, add key, deactivate} (create A twice = create same subject) up to the length bound; " +
+	r.Rule("operation sequences over {create A, create B, add/update/delete service, add key, deactivate} (create A twice = create same subject) up to the length bound, from the empty database and from a start state in which subject A exists and has a service; " +
 		"for each operation of each sequence each numbered step of the fault-free twin run (SQL begin / statement / commit of both transactions, before and after each method's Commit, end) " +
 		"x {error, stop}, plus an un-aged sweep inside the operation at each method-commit boundary; scripted did:nuts environment and real did:nuts manager + store; " +
 		"a case is non-trivial when the cut operation changes documents on the twin")
@@ -853,7 +917,7 @@ func TestVerifC13(t *testing.T) {
 
 	var rc caseT
 	if r.ReplayCase(&rc) {
-		tw := dryRun(t, r, rc.Nuts, rc.Seq)
+		tw := dryRun(t, r, rc.Nuts, rc.Start, rc.Seq)
 		cr := runCase(t, r, rc, tw)
 		r.Eval(ev.Key(rc))
 		r.Outcome(cr.outcome)
@@ -869,22 +933,32 @@ func TestVerifC13(t *testing.T) {
 	r.Bound("sequence_length_real_nuts", realLen)
 
 	type job struct {
-		kind string
-		seq  []string
+		kind  string
+		seq   []string
+		start string
 	}
 	var jobs []job
 	// only maximal sequences are enumerated: the cuts of a shorter sequence are the cuts of the first operations of a longer one
 	for _, s := range sequences(maxLen, func(s []string) bool { return len(s) == maxLen }) {
-		jobs = append(jobs, job{"scripted", s})
+		jobs = append(jobs, job{"scripted", s, ""})
 	}
 	if maxLenCreate > maxLen {
 		for _, s := range sequences(maxLenCreate, func(s []string) bool { return len(s) == maxLenCreate && s[0] == opCreateA }) {
-			jobs = append(jobs, job{"scripted", s})
+			jobs = append(jobs, job{"scripted", s, ""})
 		}
 	}
 	for _, s := range sequences(realLen, func(s []string) bool { return len(s) == realLen && strings.HasPrefix(s[0], "create") }) {
-		jobs = append(jobs, job{"real", s})
+		jobs = append(jobs, job{"real", s, ""})
 	}
+	// second start state: subject A exists and has a service (update / delete service have something to work on at once)
+	preLen := 2
+	if r.Thorough() {
+		preLen = 3
+	}
+	for _, s := range sequences(preLen, func(s []string) bool { return len(s) == preLen }) {
+		jobs = append(jobs, job{"scripted", s, "pre"})
+	}
+	r.Bound("sequence_length_from_start_with_service", preLen)
 	r.Bound("sequences", len(jobs))
 
 	idx := 0
@@ -903,7 +977,7 @@ func TestVerifC13(t *testing.T) {
 				break
 			}
 			if tw == nil {
-				tw = dryRun(t, r, jb.kind, jb.seq)
+				tw = dryRun(t, r, jb.kind, jb.start, jb.seq)
 				if t.Failed() && r.Violations() == 0 {
 					t.Fatalf("harness: twin run failed for %v", jb.seq)
 				}
@@ -919,15 +993,15 @@ func TestVerifC13(t *testing.T) {
 				if s.Kind == "ext" {
 					ext = s.Label
 				}
-				list = append(list, caseT{Nuts: jb.kind, Seq: jb.seq, At: at, Step: s.N, Ext: ext, Mode: "stop", Sweep: "plain", Label: s.String()})
+				list = append(list, caseT{Start: jb.start, Nuts: jb.kind, Seq: jb.seq, At: at, Step: s.N, Ext: ext, Mode: "stop", Sweep: "plain", Label: s.String()})
 				if s.Kind == "ext" && (s.Label == "end" || strings.HasSuffix(s.Label, ":done") || s.Label == "web.Commit") {
 					continue // errors are injected where the environment can fail: SQL steps and the did:nuts publish (did:web's Commit is empty)
 				}
-				list = append(list, caseT{Nuts: jb.kind, Seq: jb.seq, At: at, Step: s.N, Ext: ext, Mode: "error", Sweep: "plain", Label: s.String()})
+				list = append(list, caseT{Start: jb.start, Nuts: jb.kind, Seq: jb.seq, At: at, Step: s.N, Ext: ext, Mode: "error", Sweep: "plain", Label: s.String()})
 			}
 			for _, s := range tw.Steps[at] {
 				if s.Kind == "ext" && s.Label != "end" {
-					list = append(list, caseT{Nuts: jb.kind, Seq: jb.seq, At: at, Mode: "race", Race: s.Label, Sweep: "plain", Label: s.String()})
+					list = append(list, caseT{Start: jb.start, Nuts: jb.kind, Seq: jb.seq, At: at, Mode: "race", Race: s.Label, Sweep: "plain", Label: s.String()})
 				}
 			}
 			for _, c := range list {
